@@ -500,7 +500,7 @@ func c01ScribbleEncodings(c *Ctx, args rm.Vals) {
 	defer func() { recover() }()
 	scribble := func(b []byte) {
 		for i := range b {
-			b[i] ^= 0x5a
+			b[i] = 0xee // (a constant: overwriting the same memory twice must not put the old content back)
 		}
 	}
 	for _, v := range args {
